@@ -50,6 +50,9 @@ META_SPELLINGS = [
     '<meta http-equiv=Content-Type content=text/html;charset=%s>',
     '<meta id="m" http-equiv = "Content-Type" lang="en" content = "text/html; charset = %s" data-x="1">',
     '<!-- <meta http-equiv="Content-Type" content="text/html; charset=koi8-r"> --><meta http-equiv="Content-Type" content="text/html; charset=%s">',
+    # other attributes of the element, with characters that mean something elsewhere: '>' and quotes inside quoted values
+    '<meta tal:condition="python: 1 > 0" title=\'a "b" > c\' http-equiv="Content-Type" content="text/html; charset=%s">',
+    '<meta data-a="x>y" http-equiv="Content-Type" data-b=\'<meta charset="koi8-r">\' content="text/html; charset=%s" />',
 ]
 
 
@@ -89,7 +92,7 @@ def _case(args):
     n = 0
     d = tempfile.mkdtemp(prefix="c17_")
     try:
-        for variant in range(9):
+        for variant in range(len(META_SPELLINGS)):
             doc = build_doc(rec, rnd, variant)
             enc = rec["enc"]
             try:
